@@ -294,7 +294,7 @@ def donor_pool(cat: str) -> tuple:
     return gen.OTHER_DONORS.get(cat, ())
 
 
-def single_edit_grid(programs, tier, shard, nshards, seed, n_expr=6, thin=1, remove_optsets=({},), cut=False):
+def single_edit_grid(programs, tier, shard, nshards, seed, n_expr=6, thin=1, remove_optsets=({},), cut=False, line_comments=False):
     """Deterministic grid of one-step cases: every node target of every program x {replace by each of a few donors of its category (plain,
     parenthesised, multi-line, compound) in src / fst form with pars auto / True, remove}. Yields case dicts for checks built on apply_step()."""
 
@@ -320,6 +320,16 @@ def single_edit_grid(programs, tier, shard, nshards, seed, n_expr=6, thin=1, rem
             for j in picks:
                 for form, pars in (('src', 'auto'), ('fst', True), ('fst', 'auto'), ('src', True)):
                     variants.append(('replace', j, form, pars))
+
+            if line_comments and isinstance(node, _ast.stmt):
+                for lcf in (None, 'body', 'orelse', 'finalbody'):
+                    if lcf is None or getattr(node, lcf, None):
+                        for text in ('lc', ''):
+                            k += 1
+
+                            if k % nshards == shard and not (thin > 1 and (k * 2654435761 + seed * 40503) % thin):
+                                yield {'src': src, 'grid': True,
+                                       'steps': [{'tsel': ti, 'form': 'src', 'dsel': 0, 'opts': {}, 'op': 'put_line_comment', 'anycat': False, 'layout': [], 'text': text, 'lc_field': lcf}]}
 
             for op, j, form, pars in variants:
                 k += 1
